@@ -37,12 +37,21 @@ def evaluate(prop, part, tier, cases, tag="cases"):
         obs = core.run_harness(part.ENGINE, hcases, timeout=getattr(part, "HARNESS_TIMEOUT", 400),
                                shards=getattr(part, "HARNESS_SHARDS", None),
                                extra_env=getattr(part, "HARNESS_ENV", None))
-    terms = [part.to_gallina(c, obs[c["id"]]) for c in cases]
+    # a case on which the code under test panicked inside the harness: the panic is the observation, the model never panics
+    live = [c for c in cases if not panicked(obs.get(c["id"]))]
+    terms = [part.to_gallina(c, obs[c["id"]]) for c in live]
     res = core.coq_eval(prop, tier, part.IMPORTS, part.FN, terms, part.TY,
-                        shard_size=getattr(part, "SHARD", 300), tag=part_name(part) + "_" + tag)
+                        shard_size=getattr(part, "SHARD", 300), tag=part_name(part) + "_" + tag) if live else []
     proj = getattr(part, "PROJECT", None)
-    verdicts = {c["id"]: (proj(res[i], c, obs[c["id"]]) if proj else res[i]) for i, c in enumerate(cases)}
+    verdicts = {c["id"]: (proj(res[i], c, obs[c["id"]]) if proj else res[i]) for i, c in enumerate(live)}
+    for c in cases:
+        if c["id"] not in verdicts:
+            verdicts[c["id"]] = (False, False)
     return obs, verdicts
+
+
+def panicked(o):
+    return isinstance(o, dict) and "engine_panic" in o
 
 
 def shrink_case(prop, part, tier, case, want):
@@ -154,7 +163,7 @@ def run_property(mod, tier, seed, replay=None):
                 continue
             # a known finding explains a failing case only if the (code-faithful) model agrees with the
             # implementation on it: any further deviation on the same input is still reported
-            k = known(part, c, obs[c["id"]]) if a else None
+            k = known(part, c, obs[c["id"]]) if a and not panicked(obs[c["id"]]) else None
             if k is not None:
                 known_hits.setdefault(k, []).append(c)
             elif not s:
@@ -214,14 +223,17 @@ def run_property(mod, tier, seed, replay=None):
             nviol += len(unknown)
         elif disagree_unexpl:
             unshown.append((part, disagree_unexpl, len(cases), extra))
-        for c in cases:
+        shown = [c for c in cases if not panicked(obs[c["id"]])]
+        for c in shown:
             k = part.nontrivial(c, obs[c["id"]])
             if k is not None:
                 keys.add((pn, k))
-        picks = cases[:2] + cases[len(cases) // 2: len(cases) // 2 + 1]
+        picks = shown[:2] + shown[len(shown) // 2: len(shown) // 2 + 1]
         samples += [{"part": pn, "case": part.describe(c, obs[c["id"]])} for c in picks]
-        if hasattr(part, "histogram"):
-            hist[pn] = part.histogram(cases, obs)
+        if hasattr(part, "histogram") and shown:
+            hist[pn] = part.histogram(shown, obs)
+            if len(shown) < len(cases):
+                hist[pn]["panicked_inside_the_harness"] = len(cases) - len(shown)
     if not reported and (unshown or problems):
         desc = {"property": prop, "kind": "not-shown", "seed": seed, "tier": tier, "repo": core.repo_head(),
                 "no_longer_checks": [p["what"] for p in problems], "problems": problems}
